@@ -218,7 +218,9 @@ def from_meshio(m,
 
     # attempt parsing skfem tags
     if m.cell_data:
-        _boundaries, _subdomains = mtmp._decode_cell_data(m.cell_data)
+        # the tag bits refer to the local facets of the cells as stored
+        mraw = mesh_type(p, t, sort_t=False, validate=False)
+        _boundaries, _subdomains = mraw._decode_cell_data(m.cell_data)
         boundaries.update(_boundaries)
         subdomains.update(_subdomains)
 
